@@ -5,6 +5,9 @@
    / and % truncate; division by zero and INT64_MIN / -1 raise SIGFPE; assert prints and exits 1;
    `let x = e` inside a block becomes `int64_t x = e;` whose initialiser already sees the NEW x, so an
    initialiser that reads a shadowed x reads an indeterminate value: nat_outcome NUndef.
+   Not modelled (open finding lang:for-bound-reevaluated): the emitted `for (i = lo; i < hi; i++)` re-evaluates hi before
+   every iteration; the model evaluates the bounds once, as the language prescribes -- the two differ only when the body
+   assigns a variable hi reads or hi has an effect, which the correspondence stream keeps apart.
    Arrays: a literal is the C call dynarray_literal_int(n, e1, .., en) and (at a i) is nl_array_at_int(a, i), so their
    operands are evaluated in the order [ord] like the arguments of any other call; an index outside 0 <= i < length
    fails the assertion in dyn_array_get_int (src/runtime/dyn_array.c): abort().
